@@ -131,7 +131,7 @@ fn differential(l: &mut Local, m: &Mat, rng: &mut Rng) {
     md.u(m.rows as u64).entries(&m.e);
     for _ in 0..10 {
         let llrs = small_int_llrs(rng, m.cols, &cw);
-        for &limit in &[0usize, 1, 2, 3, 7, 25] {
+        for &limit in &[0usize, 1, 2, 3, 7, 12] {
             for sched in ["flooding", "layered"] {
                 l.eval();
                 let got = if sched == "flooding" { guard(|| fl.decode(&llrs, limit)) } else { guard(|| hl.decode(&llrs, limit)) };
@@ -720,17 +720,17 @@ where
 }
 
 pub fn run(run: &mut Run) {
-    run.rule = "through the public generic flooding::Decoder<A> / horizontal_layered::Decoder<A>: (1) exact integer min-sum arithmetic (checker-supplied) vs dense-table textbook schedules, results must be equal, small-integer LLRs, limits {0,1,2,3,7,25}; (2) Trace<A> wrapper around all 24 built-in arithmetics and IntMinSum logs every trait call; the checker requires the inputs of every call to be exactly the previously logged outputs routed as the textbook says (bit for bit), the check pass before the variable pass, layered rows in index order starting from the previous iteration's messages, a syndrome test after every full iteration and the returned verdict/word/iteration = first iteration whose logged hard decisions satisfy H; (3) forests with check degree >= 2, n <= 14: per-variable LLRs at every iteration >= diameter vs brute-force posteriors (Phi/Tanh f64: relative 1e-6 while all trace values <= 20; f32: 1e-3 while all trace values <= 8; cases outside the accurate range are counted and skipped); matrices inserted in sorted or shuffled order; non-trivial = >= 2 iterations executed; distinct by (schedule, arithmetic, matrix, LLR, limit) digest".into();
+    run.rule = "through the public generic flooding::Decoder<A> / horizontal_layered::Decoder<A>: (1) exact integer min-sum arithmetic (checker-supplied) vs dense-table textbook schedules, results must be equal, small-integer LLRs, limits {0,1,2,3,7,12} (bounded so that the exact i64 arithmetic cannot overflow); (2) Trace<A> wrapper around all 24 built-in arithmetics and IntMinSum logs every trait call; the checker requires the inputs of every call to be exactly the previously logged outputs routed as the textbook says (bit for bit), the check pass before the variable pass, layered rows in index order starting from the previous iteration's messages, a syndrome test after every full iteration and the returned verdict/word/iteration = first iteration whose logged hard decisions satisfy H; (3) forests with check degree >= 2, n <= 14: per-variable LLRs at every iteration >= diameter vs brute-force posteriors (Phi/Tanh f64: relative 1e-6 while all trace values <= 20; f32: 1e-3 while all trace values <= 8; cases outside the accurate range are counted and skipped); matrices inserted in sorted or shuffled order; non-trivial = >= 2 iterations executed; distinct by (schedule, arithmetic, matrix, LLR, limit) digest".into();
     run.assumptions = vec![
         "message order inside a slice is not constrained (sets keyed by source/dest)".into(),
         "posterior clause uses 0.1 <= |LLR| <= 8 (f64) / 2.5 (f32) and is judged only while every message stays inside the accurate range of phi/tanh (error grows like u*e^|L|, see C04)".into(),
     ];
-    let n1 = if cfg!(miri) { 3 } else { run.tier.n(2500, 120_000) };
+    let n1 = if cfg!(miri) { 3 } else { run.tier.n(40_000, 1_500_000) };
     run.sub("differential-intminsum", n1, |l, _idx, rng| {
         let m = genm::decoder_matrix(rng, 6, 12);
         differential(l, &m, rng);
     });
-    let per = if cfg!(miri) { 1 } else { run.tier.n(60, 3000) };
+    let per = if cfg!(miri) { 1 } else { run.tier.n(1200, 40_000) };
     run.sub("trace-conformance", per * 25, |l, idx, rng| {
         let m = genm::decoder_matrix(rng, 5, 10);
         let k = (idx % 25) as usize;
@@ -741,7 +741,7 @@ pub fn run(run: &mut Run) {
             with_arith!(name, A, { trace_case::<A>(l, name, &|| <A>::new(), &m, rng) }, { panic!() });
         }
     });
-    let n3 = if cfg!(miri) { 2 } else { run.tier.n(1500, 60_000) };
+    let n3 = if cfg!(miri) { 2 } else { run.tier.n(30_000, 1_000_000) };
     run.sub("posterior-forests", n3, |l, idx, rng| match idx % 4 {
         0 => posterior_case::<ldpc_toolbox::decoder::arithmetic::Phif64>(l, "Phif64", &ldpc_toolbox::decoder::arithmetic::Phif64::new, rng),
         1 => posterior_case::<ldpc_toolbox::decoder::arithmetic::Tanhf64>(l, "Tanhf64", &ldpc_toolbox::decoder::arithmetic::Tanhf64::new, rng),
